@@ -51,4 +51,6 @@ if meta["confirmed"]:
                 print(c, "detected" if rc2 else "MISSED", lines[:2])
         finally:
             sh("git -C /repo checkout -- .")
+            # evidence and generated files written while the change was applied describe the changed tree
+            sh("git -C /verif checkout -- evidence coq/Gen")
 json.dump(meta, open(os.path.join(dst, "meta.json"), "w"), indent=1)
